@@ -27,6 +27,12 @@ clang CFGs of initTaskingSystem / numTaskingThreads with all callees that have a
   R-C13-7  (added by the coordinator) initTaskingSystem never empties the installed handle before the new one has been
            constructed (for TBB the handle owns the global_control, so emptying first opens a window without a limit).
 
+  R-C13-8  when initTaskingSystem returns, no persistent cell other than the global handle holds the previously installed
+           handle (under TBB the minimum over all live global_control objects is the active limit, so a parked old handle
+           keeps capping the new setting; harmless for the backends whose handle owns no limit object).
+  R-C13-9  OpenMP: the initialisation path does not enable nested parallel regions (omp_set_max_active_levels(k >= 2) /
+           omp_set_nested(non-zero) would let every outer thread fork its own team of n).
+
 Not decided: that no more than n threads are ever inside parallel_for bodies at the same time (a runtime quantity
 of each backend's scheduler).
 """
@@ -111,6 +117,37 @@ def mentions_only(v, atom):
     if not isinstance(v, Poly):
         return False
     return all(a == atom for a in v.atoms(deep=False))
+
+
+def clamp_of(v, N):
+    """(kind, other operand, recognised) if v is min(n, X) / max(n, X) (possibly converted); recognised = X is a constant or a
+    hardware-derived count, i.e. the result provably differs from n for some n"""
+    while isinstance(v, Poly):
+        a = v.as_atom()
+        if isinstance(a, tuple) and a and a[0] == 'conv':
+            v = a[2]
+        else:
+            break
+    a = v.as_atom() if isinstance(v, Poly) else None
+    if not (isinstance(a, tuple) and a and a[0] in ('min', 'max') and len(a) == 3):
+        return None
+    ops = [a[1], a[2]]
+    for me, other in (ops, ops[::-1]):
+        if isinstance(me, Poly) and me.as_atom() == N:
+            so = strip_site(other)
+            rec = (isinstance(other, Poly) and other.is_const()) or (isinstance(so, tuple) and so and so[0] == 'hw')
+            return a[0], other, rec
+    return None
+
+
+def clamp_is_identity(cl, N, p):
+    """min(n, X) / max(n, X) equals n for every n of the path's range"""
+    kind, other, _ = cl
+    if not isinstance(other, Poly):
+        return False
+    nlo, nhi = p.bounds(N)
+    olo, ohi = other.range(p.bounds)
+    return nhi <= olo if kind == 'min' else nlo >= ohi
 
 
 def final_value(p, loc):
@@ -245,7 +282,7 @@ def expected_getter(cfg, ret):
 
 # ================================================================================================
 def check_init(ctx, cfg, tus, tag, G, GT):
-    R1, R4 = 'R-C13-1', 'R-C13-4'
+    R1, R4, R8, R9 = 'R-C13-1', 'R-C13-4', 'R-C13-8', 'R-C13-9'
     tu = tus[0]
     f = one_fn(ctx, tu, INIT, R1)
     if f is None:
@@ -323,8 +360,18 @@ def check_init(ctx, cfg, tus, tag, G, GT):
                 sv = strip_site(v)
                 if v == Nv or sv == N:
                     continue
+                bad_before = bad
                 bad = True
-                if mentions_only(v, N) or (isinstance(sv, tuple) and sv and sv[0] == 'hw'):
+                cl = clamp_of(v, N)
+                if cl is not None and clamp_is_identity(cl, N, p):
+                    bad = bad_before
+                    continue            # min/max that cannot change n on this path (e.g. max(n, -1) where n >= 1)
+                if cl is not None and cl[2]:
+                    report(ctx, p, R1, inst, 'for n in %s %s receives `%s`: the request is clamped with %s(n, %s), so a larger '
+                           'n is silently replaced and numTaskingThreads() does not return n' % (rng((max(lo, 1), hi)), limit_name(cfg),
+                           show_val(v), cl[0], show_val(cl[1])), e[4],
+                           '%s|%s|initTaskingSystem|%s:limit-value-clamped' % (R1, file, cfg))
+                elif mentions_only(v, N) or (isinstance(sv, tuple) and sv and sv[0] == 'hw'):
                     report(ctx, p, R1, inst, 'for n in %s %s receives `%s` instead of n' % (rng((max(lo, 1), hi)),
                            limit_name(cfg), show_val(v)), e[4], '%s|%s|initTaskingSystem|%s:limit-value-not-n' % (R1, e[4].split(':')[0], cfg))
                 else:
@@ -375,6 +422,42 @@ def check_init(ctx, cfg, tus, tag, G, GT):
                     report(ctx, p, R1, inst, 'Initialize is called on %s but numTaskingThreads reads the scheduler in `%s` '
                            '(which holds %s)' % (show_val(e[2]), GT[1].split('::')[-1], show_val(cur)), e[4],
                            '%s|%s|initTaskingSystem|%s:scheduler-not-the-queried-one' % (R1, e[4].split(':')[0], cfg))
+        # ---- R-C13-8: the previous handle must be gone when the call returns (TBB: the minimum over all live
+        #      global_control objects is what counts, so a parked old handle keeps capping the new setting)
+        if G is not None and p.bounds(G)[1] >= 1:
+            old = Poly.atom(G)
+            parked = [loc for loc, v in p.stores().items() if loc != G and loc[0] in ('glob', 'field') and v == old]
+            if parked and cfg == 'TBB':
+                where = parked[0][1].split('::')[-1] if parked[0][0] == 'glob' else '%s of %s' % (parked[0][2], show_val(parked[0][1]))
+                report(ctx, p, R8, inst, 'the previously installed handle is moved into `%s` and is still alive when initTaskingSystem '
+                       'returns: its tbb::global_control keeps limiting the process (TBB uses the minimum over all live controls), so '
+                       'init(2); init(8) reports and uses 2 - the previous setting is not replaced' % where, tu.fn_loc(f),
+                       '%s|%s|initTaskingSystem|%s:previous-handle-kept-alive' % (R8, file, cfg))
+            elif parked:
+                ctx.ok(R8, inst, 'previous handle parked in %s; harmless: under this backend the handle owns no process-wide limit '
+                       'object' % show_val(Poly.atom(parked[0])), tu.fn_loc(f), nontrivial=False)
+            else:
+                ctx.ok(R8, inst, 'no persistent cell holds the previous handle on return', tu.fn_loc(f))
+        # ---- R-C13-9: OpenMP nesting stays off on the init path (with nesting every outer thread forks its own team of n)
+        if cfg == 'OMP':
+            nest = [e for e in p.events if e[0] == 'call' and e[1] in ('omp_set_max_active_levels', 'omp_set_nested')]
+            nbad = False
+            for e in nest:
+                c = e[3][0].as_int() if e[3] and isinstance(e[3][0], Poly) else None
+                limit_ok = (c is not None) and (c <= 1 if e[1] == 'omp_set_max_active_levels' else c == 0)
+                if limit_ok:
+                    continue
+                nbad = True
+                if c is None:
+                    ctx.undecided(R9, inst, '%s(%s): the argument is not a constant; cannot tell whether nested parallel regions are '
+                                  'enabled' % (e[1], show_val(e[3][0]) if e[3] else ''), e[4])
+                else:
+                    report(ctx, p, R9, inst, '%s(%d) on the initialisation path enables nested parallel regions: a parallel_for called '
+                           'from a parallel_for body forks its own team of n threads per outer thread, so up to n*n bodies run at '
+                           'the same time' % (e[1], c), e[4], '%s|%s|initTaskingSystem|OMP:nested-parallelism-enabled' % (R9, e[4].split(':')[0]))
+            if not nbad:
+                ctx.ok(R9, inst, 'nesting left at the default (one active level)' if not nest else
+                       '; '.join('%s(%s)' % (e[1], show_val(e[3][0])) for e in nest), tu.fn_loc(f))
         if not bad:
             ctx.ok(R1, inst, '; '.join('%s(%s)' % (limit_name(cfg), show_val(limit_value(cfg, e))) for e in limits) or
                    'backend default left in place', tu.fn_loc(f))
@@ -647,6 +730,10 @@ def run(ctx):
     ctx.describe('R-C13-6', 'the limit installed by initTaskingSystem is the only source of the team size (no num_threads clause, no other '
                             'caller of the limit APIs, no arena with explicit concurrency)')
     ctx.describe('R-C13-7', 'initTaskingSystem never empties the installed handle before the new one is constructed (no window without a limit)')
+    ctx.describe('R-C13-8', 'when initTaskingSystem returns no persistent cell other than the global handle holds the previous handle '
+                            '(TBB: a second live global_control keeps capping the limit)')
+    ctx.describe('R-C13-9', 'OpenMP: the init path does not enable nested parallel regions (omp_set_max_active_levels(k>=2), '
+                            'omp_set_nested(non-zero))')
     ctx.describe('R-C13-1', 'n > 0 reaches the backend limit API as itself; n <= 0 leaves the default or passes a hardware-derived '
                             'count; the object carrying the limit is owned by the installed handle / is the queried scheduler')
     ctx.describe('R-C13-2', 'numTaskingThreads with an initialised handle returns the getter paired with the limit API')
